@@ -662,6 +662,17 @@ class TextXVisitor(RRELVisitor):
             rule_name, root_rule = children
             rule_params = {}
 
+        if rule_name.startswith("__asgn"):
+            # Assignment expressions are marked by rule names of this form.
+            line, col = self.grammar_parser.pos_to_linecol(node.position)
+            raise TextXSemanticError(
+                f'Rule name "{rule_name}" at {(line, col)} is reserved '
+                '(names starting with "__asgn" are used internally).',
+                line,
+                col,
+                filename=self.metamodel.file_name,
+            )
+
         if root_rule.rule_name.startswith("__asgn") or (
             rule_params
             and (
